@@ -3,6 +3,7 @@ package main
 import (
 	"fmt"
 	"math/rand"
+	"reflect"
 	"strings"
 
 	"github.com/hashicorp/go-hclog"
@@ -72,6 +73,9 @@ func tabulate(az acl.Authorizer) *AzTab {
 }
 
 func mkAuthorizer(policy, deflt string) acl.Authorizer {
+	if deflt == "manage" {
+		return acl.ManageAll()
+	}
 	p, err := acl.NewPolicyFromSource(policy, nil, nil)
 	if err != nil {
 		panic(fmt.Sprintf("policy does not parse: %v\n%s", err, policy))
@@ -168,6 +172,8 @@ type G struct {
 	n      int
 	mask   int
 	nextID int
+	flagIn *bool // when set: the flag(s) the response carries on entry
+	peers  bool  // arrangement modes: give elements a peer name half of the time
 }
 
 func (g *G) id() int { g.nextID++; return g.nextID }
@@ -242,7 +248,10 @@ func (g *G) split(w *bool) (*bool, *bool) {
 
 func (g *G) peer(w *bool) string {
 	if w != nil || g.mode == "inner" {
-		return "" // the arrangement policies decide by name; imported elements are decided wholesale
+		if g.peers && g.coin(0.5) {
+			return "peer1" // imported elements are decided wholesale (the oracle recomputes; the mask is a hint)
+		}
+		return "" // the arrangement policies decide by name
 	}
 	if g.coin(0.2) {
 		return "peer1"
@@ -285,18 +294,72 @@ func applyFilter(rt *respType, az acl.Authorizer, v any) (pan string) {
 	return ""
 }
 
+// Opt: variations of a case beyond (type, mode, n, mask, seed, policy).
+type Opt struct {
+	Flag0 *bool `json:"flag0,omitempty"` // flag(s) on entry (nil: the generator decides)
+	Peers bool  `json:"peers,omitempty"`
+	Twice bool  `json:"twice,omitempty"` // filter, refill the SAME object from seed2, filter again
+	Seed2 int64 `json:"seed2,omitempty"`
+	Mask2 int   `json:"mask2,omitempty"`
+}
+
+// content fields of a response struct = everything except the query meta / flags
+func copyContent(dst, src any) bool {
+	d, s := reflect.ValueOf(dst), reflect.ValueOf(src)
+	if d.Kind() != reflect.Ptr || d.Elem().Kind() != reflect.Struct {
+		return false
+	}
+	d, s = d.Elem(), s.Elem()
+	for i := 0; i < d.NumField(); i++ {
+		name := d.Type().Field(i).Name
+		if name == "QueryMeta" || name == "FilteredByACLs" {
+			continue
+		}
+		d.Field(i).Set(s.Field(i))
+	}
+	return true
+}
+
+// copyFlags: the flags of src (as left by a previous filter run) onto dst
+func copyFlags(dst, src any) {
+	d, s := reflect.ValueOf(dst).Elem(), reflect.ValueOf(src).Elem()
+	for i := 0; i < d.NumField(); i++ {
+		name := d.Type().Field(i).Name
+		if name == "QueryMeta" || name == "FilteredByACLs" {
+			d.Field(i).Set(s.Field(i))
+		}
+	}
+}
+
 // runFilterCase regenerates the response twice from the sub-seed (one copy is filtered, the
 // other stays pristine for the oracle), filters, and records terms + oracle verdict.
-func runFilterCase(rt *respType, mode string, n, mask int, seed int64, policy, deflt string) *Case {
+// With opt.Twice the object is first filtered with content from (seed, mask), then refilled
+// with the content generated from (seed2, mask2) — keeping its query meta, as a blocking query
+// that re-runs on the same reply does — and filtered again; the recorded case is the second run.
+func runFilterCase(rt *respType, mode string, n, mask int, seed int64, policy, deflt string, opt Opt) *Case {
 	az := mkAuthorizer(policy, deflt)
-	mk := func() any {
-		g := &G{rng: rand.New(rand.NewSource(seed)), mode: mode, n: n, mask: mask}
+	mkFrom := func(sd int64, mk int, f0 *bool) any {
+		g := &G{rng: rand.New(rand.NewSource(sd)), mode: mode, n: n, mask: mk, flagIn: f0, peers: opt.Peers}
 		return rt.gen(g)
 	}
-	pristine := mk()
-	v := mk()
 	c := &Case{Kind: "filter", Type: rt.name, Mode: mode, N: n, Mask: mask, Seed: seed,
-		Policy: policy, Deflt: deflt, Az: tabulate(az)}
+		Policy: policy, Deflt: deflt, Az: tabulate(az), Opt: opt}
+	var pristine, v any
+	if opt.Twice {
+		v = mkFrom(seed, mask, opt.Flag0)
+		if p := applyFilter(rt, az, v); p != "" {
+			c.Panic, c.Oracle, c.Sig = p, "panic: "+p, map[string]any{"kind": "panic", "type": rt.name}
+			return c
+		}
+		pristine = mkFrom(opt.Seed2, opt.Mask2, nil)
+		if !copyContent(v, mkFrom(opt.Seed2, opt.Mask2, nil)) {
+			panic("twice: not a struct response: " + rt.name)
+		}
+		copyFlags(pristine, v) // what the second run finds on entry
+	} else {
+		pristine = mkFrom(seed, mask, opt.Flag0)
+		v = mkFrom(seed, mask, opt.Flag0)
+	}
 	c.In = rt.term(pristine)
 	c.Panic = applyFilter(rt, az, v)
 	if c.Panic != "" {
@@ -317,6 +380,16 @@ func runFilterCase(rt *respType, mode string, n, mask int, seed int64, policy, d
 	return c
 }
 
+// hasFlag: the response type carries QueryMeta.ResultsFilteredByACLs
+func hasFlag(rt *respType) bool {
+	v := reflect.ValueOf(rt.gen(&G{rng: rand.New(rand.NewSource(1)), mode: "exh"}))
+	if v.Kind() != reflect.Ptr || v.Elem().Kind() != reflect.Struct {
+		return false
+	}
+	_, ok := v.Elem().Type().FieldByName("QueryMeta")
+	return ok
+}
+
 func genFilterCases(rng *rand.Rand, tier string, emit func(*Case)) {
 	maxN := 5
 	randPer := 30
@@ -325,8 +398,10 @@ func genFilterCases(rng *rand.Rand, tier string, emit func(*Case)) {
 		randPer = 250
 		innerN = 4
 	}
+	tr, fl := true, false
 	for i := range respTypes {
 		rt := &respTypes[i]
+		flagged := hasFlag(rt)
 		reps := 1
 		if rt.mapOrder {
 			reps = 4 // the branch iterates a Go map: repeat so that several iteration orders are met
@@ -348,7 +423,25 @@ func genFilterCases(rng *rand.Rand, tier string, emit func(*Case)) {
 						continue
 					}
 					for r := 0; r < reps; r++ {
-						emit(runFilterCase(rt, "exh", n, mask, rng.Int63(), pol.p, pol.d))
+						emit(runFilterCase(rt, "exh", n, mask, rng.Int63(), pol.p, pol.d, Opt{Flag0: &fl}))
+					}
+					if !flagged {
+						continue
+					}
+					// the same arrangement with the flag already set on entry (reply reused by a blocking query)
+					if pi == 0 || tier == "thorough" {
+						for r := 0; r < (reps+1)/2; r++ {
+							emit(runFilterCase(rt, "exh", n, mask, rng.Int63(), pol.p, pol.d, Opt{Flag0: &tr}))
+						}
+					}
+				}
+				if !rt.noArrangement && (n <= 3 || tier == "thorough") {
+					// elements imported from a peer mixed in; and the same object filtered twice
+					emit(runFilterCase(rt, "exh", n, mask, rng.Int63(), policyA, "deny", Opt{Flag0: &fl, Peers: true}))
+					emit(runFilterCase(rt, "exh", n, mask, rng.Int63(), policyB, "allow", Opt{Flag0: &fl, Peers: true}))
+					if flagged {
+						emit(runFilterCase(rt, "exh", n, rng.Intn(masks), rng.Int63(), policyA, "deny",
+							Opt{Flag0: &fl, Twice: true, Seed2: rng.Int63(), Mask2: mask}))
 					}
 				}
 			}
@@ -358,7 +451,7 @@ func genFilterCases(rng *rand.Rand, tier string, emit func(*Case)) {
 			for n := 0; n <= innerN; n++ {
 				// 2n bits: bit j = service j readable, bit n+j = check j readable
 				for mask := 0; mask < 1<<uint(2*n); mask++ {
-					emit(runFilterCase(rt, "inner", n, mask, rng.Int63(), policyA, "deny"))
+					emit(runFilterCase(rt, "inner", n, mask, rng.Int63(), policyA, "deny", Opt{}))
 				}
 			}
 		}
@@ -367,6 +460,9 @@ func genFilterCases(rng *rand.Rand, tier string, emit func(*Case)) {
 	// (nil members, empty names).  Grouped by policy so that a case shard needs few tables.
 	for k := 0; k < randPer; k++ {
 		p, d := randomPolicy(rng)
+		if k%10 == 9 {
+			p, d = "", "manage" // acl.ManageAll(): nothing may be removed, no secret hidden
+		}
 		for i := range respTypes {
 			rt := &respTypes[i]
 			reps := 1
@@ -374,10 +470,10 @@ func genFilterCases(rng *rand.Rand, tier string, emit func(*Case)) {
 				reps = 3
 			}
 			for r := 0; r < reps; r++ {
-				emit(runFilterCase(rt, "rand", rng.Intn(7), 0, rng.Int63(), p, d))
+				emit(runFilterCase(rt, "rand", rng.Intn(7), 0, rng.Int63(), p, d, Opt{}))
 			}
 			if k%3 == 0 {
-				emit(runFilterCase(rt, "malformed", rng.Intn(7), 0, rng.Int63(), p, d))
+				emit(runFilterCase(rt, "malformed", rng.Intn(7), 0, rng.Int63(), p, d, Opt{}))
 			}
 		}
 	}
@@ -455,21 +551,19 @@ func checkList[E any](o *orc, what string, in, out []E, id func(E) string, reada
 	return removed
 }
 
-// checkFlag: the flag must say exactly whether something was removed (when it was clear on
-// entry); a flag that was already set on entry may only stay set if something was removed or
-// the branch is one that never clears it.
+// checkFlag: after the filter the flag must say exactly whether THIS run removed something —
+// also when the response came in with the flag already set (a blocking query re-runs its
+// function on the same reply object, so a flag left over from an earlier run is observable).
 func (o *orc) checkFlag(f0, f, removed bool) {
-	if !f0 {
-		if f != removed {
-			o.bad("flag", "ResultsFilteredByACLs=%v but removed=%v", f, removed)
-			o.set("flag", f)
-		}
+	if f == removed {
 		return
 	}
-	if removed && !f {
-		o.bad("flag", "ResultsFilteredByACLs=false although elements were removed")
-		o.set("flag", f)
+	if f0 && f && !removed {
+		o.bad("stale-flag", "ResultsFilteredByACLs stays true from an earlier run although this run removed nothing")
+		return
 	}
+	o.bad("flag", "ResultsFilteredByACLs=%v but removed=%v (flag on entry %v)", f, removed, f0)
+	o.set("flag", f)
 }
 
 var _ = consul.FilterDirEnt
